@@ -14,7 +14,7 @@
    the standard lets a server abort at any point of a transfer, the property does not say when. *)
 From Coq Require Import ZArith List Bool.
 From CV Require Import Base.Val Base.Bytes Base.Tys Gen.Tables Gen.SdoTables Model.Codec Model.RefClient
-  Model.SdoServer Proofs.SdoServer_proofs.
+  Model.SdoServer Proofs.SdoServer_proofs Gen.SrcC06 Proofs.Src_eq_c06.
 Import ListNotations.
 Open Scope Z_scope.
 
@@ -105,6 +105,92 @@ Proof. exact client_abort_decoding. Qed.
 Theorem C06_codes_in_table : forallb (fun c => zmem c ABORT_CODES) codes_used = true.
 Proof. exact codes_in_table. Qed.
 
+(* ---- Tie to the source text (Gen/SrcC06.v is regenerated from /repo by tools/tables/src_c06.py on every run):
+   the translated functions determine the model functions the theorems above are about. ---- *)
+(* _find_object: missing index -> 0x06020000, then missing sub-index -> 0x06090011 (records/arrays by membership, plain variables by sub-index <> 0) *)
+Theorem C06_src_find_object : forall d idx sub,
+  code_of (find_object d idx sub) = src_find_object (has_index d idx) (is_var d idx) (has_sub d idx sub) sub /\
+  (forall k, find_object d idx sub <> Err k).
+Proof. exact src_find_object_eq. Qed.
+
+(* get_data: _find_object first, then not readable -> 0x06010001 BEFORE any callback, then read callback / data_store / value / default in this order, else 0x060A0023 *)
+Theorem C06_src_get_data : forall d rcb st idx sub chk,
+  match find_object d idx sub with
+  | Ok v =>
+      let '(code, src, cbrun) :=
+        src_get_data 0 chk (readable v) (osome6 (rcb idx sub)) (osome6 (store_get (s_store st) idx sub))
+                     (osome6 (v_value v)) (osome6 (v_default v)) false in
+      get_data d rcb st idx sub chk =
+        (if cbrun then log_ev st (EvR idx sub) else st,
+         if code =? 0 then value_from rcb st idx sub v src else Abort code)
+  | Abort c =>
+      get_data d rcb st idx sub chk = (st, Abort c) /\
+      forall r h s a b, src_get_data c chk r h s a b false = (c, 0, false)
+  | Err _ => False
+  end.
+Proof. exact src_get_data_eq. Qed.
+
+(* set_data: _find_object, then not writable -> 0x06010002, then the numeric length check -> 0x06070010, and only then the write callbacks followed by the store; a refusal stores nothing and runs no callback *)
+Theorem C06_src_set_data : forall d st idx sub data chk,
+  match find_object d idx sub with
+  | Ok v =>
+      let '(code, stored, cbrun, cbfirst) :=
+        src_set_data 0 chk (writable v) (dt_or v) (zlen data) (len_bits (v_dt v)) 0 false false false in
+      set_data d st idx sub data chk =
+        (if code =? 0 then (store_put (log_ev st (EvW idx sub data)) idx sub data, Ok tt) else (st, Abort code)) /\
+      (if code =? 0 then stored = true /\ cbrun = true /\ cbfirst = true else stored = false /\ cbrun = false)
+  | Abort c =>
+      set_data d st idx sub data chk = (st, Abort c) /\
+      forall w t n l, src_set_data c chk w t n l 0 false false false = (c, false, false, false)
+  | Err _ => False
+  end.
+Proof. exact src_set_data_eq. Qed.
+
+(* on_request: the handler selected by command & 0xE0; SdoAbortedError(code) -> abort(code), KeyError -> abort(0x06020000), anything else -> abort() with the default code; block download and unknown specifiers -> 0x05040001 *)
+Theorem C06_src_dispatch : forall d rcb st c rest,
+  on_request d rcb st (c :: rest) =
+  let h := src_dispatch c 0 in
+  let '(st1, r) :=
+    if h =? 1 then init_upload d rcb st (c :: rest)
+    else if h =? 2 then segmented_upload st c
+    else if h =? 3 then init_download d st (c :: rest)
+    else if h =? 4 then segmented_download d st c (c :: rest)
+    else if h =? 5 then (if src_block_upload 0 =? 1 then init_upload d rcb st (c :: rest) else (st, Err E_FUEL))
+    else if h =? 6 then (st, Abort (src_block_download 0))
+    else if h =? 7 then request_aborted st (c :: rest)
+    else (st, Abort 0x05040001) in
+  match r with
+  | Ok rs => (st1, rs, false)
+  | Abort code => do_abort st1 code
+  | Err k => do_abort st1 (if k =? E_KEY then 0x06020000 else src_abort_default)
+  end.
+Proof. exact src_dispatch_eq. Qed.
+
+(* segmented_download: toggle mismatch -> 0x05030000 BEFORE any state change; buffer extended by request[1:last_byte], set_data only on the last segment, toggle and response only when it succeeded *)
+Theorem C06_src_segmented_download : forall d st command req buf,
+  s_buf st = Some buf ->
+  let lb := 8 - Z.land (Z.shiftr command 1) 7 in
+  let buf1 := buf ++ firstn (Z.to_nat (lb - 1)) (skipn 1 req) in
+  let st1 := set_buf st (Some buf1) (s_toggle st) in
+  let sd := set_data d st1 (s_index st) (s_sub st) buf1 true in
+  let '(code, extended, last_byte, setcalled, resc, tg) :=
+    src_segmented_download command (s_toggle st) (code_of (snd sd)) false false in
+  if negb extended then code = 0x05030000 /\ segmented_download d st command req = (st, Abort code)
+  else last_byte = lb /\
+       if code =? 0 then
+         let st2 := if setcalled then fst sd else st1 in
+         segmented_download d st command req = (set_buf st2 (s_buf st2) tg, Ok [[resc; 0; 0; 0; 0; 0; 0; 0]])
+       else setcalled = true /\ segmented_download d st command req = (fst sd, Abort code).
+Proof. exact src_segmented_download_eq. Qed.
+
+(* abort(): 0x80, multiplexer of the running transfer, code *)
+Theorem C06_src_abort_frame : forall st code,
+  0 <= s_index st < 65536 -> 0 <= s_sub st < 256 -> 0 <= code < 2 ^ 32 ->
+  let '(b0, i, s, c, sent) := src_abort_frame (s_index st) (s_sub st) code false in
+  abort_frame st code = Some (b0 :: le_encode 2 i ++ [s] ++ le_encode 4 c) /\ sent = true /\
+  do_abort st code = (st, [abort_frame_of (s_index st) (s_sub st) code], false).
+Proof. exact src_abort_frame_eq. Qed.
+
 (* ---- non-vacuity ---- *)
 Example C06_nv_read_write_only :
   let d := [(0x2003, OVar (mkVar (Some dt_UNSIGNED16) [119; 111] None None))] in
@@ -174,3 +260,9 @@ Print Assumptions C06_unknown_command.
 Print Assumptions C06_reachable_states_in_range.
 Print Assumptions C06_client_abort_decoding.
 Print Assumptions C06_codes_in_table.
+Print Assumptions C06_src_find_object.
+Print Assumptions C06_src_get_data.
+Print Assumptions C06_src_set_data.
+Print Assumptions C06_src_dispatch.
+Print Assumptions C06_src_segmented_download.
+Print Assumptions C06_src_abort_frame.
